@@ -86,6 +86,16 @@ CLAIMS = {
         text="Source and destination trees are planted with symlinks of every hostile shape (absolute to a sentinel tree, '..' beyond the root, dangling, to not-yet-existing outside names, loops) and the src/dst arguments are drawn to pass through them; follow-links, wildcards, always-replace and dir-contents are varied. The real Copy runs chrooted; afterwards every entry outside the destination root (sentinel tree and the entire source root) must be bit-identical incl. ctime, nothing may have been created there, and every new or changed regular file under the destination root must carry the unique bytes of a file inside the source root. Sampled, no proof.",
         note="TOCTOU with concurrent mutation is out of scope; the exact landing place for symlinked arguments is not asserted beyond containment and byte provenance.",
         ref="4 C14"),
+    "C17": dict(
+        technique="rapid-generated views (on-disk, synthetic, filtered with hard-link reset) through WriteTar; differential against archive/tar's reader, an own minimal extractor and (thorough) GNU tar; C01's snapshot oracle on the extracted tree",
+        text="WriteTar output for generated views is parsed with archive/tar to EOF and compared member by member with the view's entries in walk order (names with trailing slash, exact bytes, payload-free link members, device numbers, 12 mode bits, owner, mtime to the second, SCHILY.xattr records); the archive is then extracted by an own minimal extractor and, in the thorough tier, by GNU tar, and the result is compared with the view using C01's snapshot comparison at second granularity incl. the hard-link partition. Sampled, no proof.",
+        note="Trusts archive/tar's reader and GNU tar 1.34. Filtered views are wrapped in WithHardlinkReset (the form Send uses). Walk/Open divergence of the dependency is the listed known finding.",
+        ref="4 C17"),
+    "C18": dict(
+        technique="rapid-generated symlink graphs x request lists through FollowLinks; oracle = chroot-style reference resolver on the tree model (coverage obligations), structural invariants, Walk-call counting for termination, end-to-end transfer with the requests as follow-paths",
+        text="FollowLinks is run on generated trees with relative, absolute, escaping, chained, cyclic, self-referential and dangling links and request lists with existing, missing, through-link and wildcard paths, on on-disk and synthetic file systems wrapped in a Walk counter. Checked: termination (<=10^4 Walk calls), result sorted / prefix-free / relative / empty when a request resolves to the root, every symlink the reference resolver traverses and every final location covered by an element, and after a real transfer with those follow-paths every request resolves to the same location, type and bytes in the destination. Sampled, no proof.",
+        note="Three root causes in followlinks.go (guard keyed by link, wildcard in a middle component, lexical cleaning of link targets) are listed known findings with heuristic classifiers; wildcard expansion through symlinked directories is not modelled by the reference.",
+        ref="4 C18"),
 }
 
 NOT_YET = "check not built yet in this round (planned, see DESIGN.md section 9)"
